@@ -140,13 +140,38 @@ func runC17(cs *vrt.Case) {
 			defer wg.Done()
 			rr := vrt.NewRng(seeds[id])
 			var mine []*c17Live
+			var keyBuf [32]byte
+			reuseKeyBuf := id%2 == 1
 			local := map[string]int64{}
+			defer func() {
+				// also on the early return after a reported problem
+				mu.Lock()
+				for _, l := range mine {
+					// the handles die with this goroutine: their memory may be
+					// collected and its address reused by a later allocation
+					delete(livePtr, l.wptr)
+				}
+				for k, v := range local {
+					counters[k] += v
+				}
+				mu.Unlock()
+				runtime.KeepAlive(mine)
+			}()
 			<-start
 			for op := 0; op < nops; op++ {
 				switch k := rr.Intn(10); {
 				case k < 3 || len(mine) == 0: // Garble
 					key := rr.Bytes(vrt.Pick(rr, []int{16, 24, 32}))
-					g, err := c.Garble(rr.Fork(), key)
+					gkey := key
+					if reuseKeyBuf {
+						// the caller keeps one key buffer and refills it in place
+						// for every garbling (the garbling must not depend on the
+						// buffer after Garble returned)
+						copy(keyBuf[:], key)
+						gkey = keyBuf[:len(key)]
+						local["garblings_with_refilled_key_buffer"]++
+					}
+					g, err := c.Garble(rr.Fork(), gkey)
 					if err != nil {
 						report("Garble failed: " + err.Error())
 						return
@@ -253,17 +278,6 @@ func runC17(cs *vrt.Case) {
 					report("a live garbling changed while held to the end: " + d)
 				}
 			}
-			mu.Lock()
-			for _, l := range mine {
-				// the handles die with this goroutine: their memory may be
-				// collected and its address reused by a later allocation
-				delete(livePtr, l.wptr)
-			}
-			for k, v := range local {
-				counters[k] += v
-			}
-			mu.Unlock()
-			runtime.KeepAlive(mine)
 		}(gi)
 	}
 	close(start)
